@@ -94,7 +94,7 @@ class C11(ProgramProperty):
                   '[a for a in (b, c)]', '[a for a in (lambda: b)]', '[a for a in b if (c if d else e)]', '{**a, b: c}', 'a[b, c]', 'a[(b, c)]', 'a[b:c, d]', 'a[:]', 'a[::]', 'a[b::c]',
                   'a[*b]', 'a[*b, c]', 'f(a)(b)[c].d', 'f(*a, *b, c=d, **e, **g)', 'f(a for a in b)', 'f((a for a in b), c)', "f'{a}{b!r}{c:>{d}}{e=}'", "f'{{}}'", "f'{a:{b}{c}}'",
                   "f'{\"x\"}'", 'f"{\'x\'}"', "f'a\\nb{c}'", "f'{a!s:}'", "'a' f'{b}' 'c'", "f'{a}' \"'\" '\"'", "f\"{x}\\\"\" f\"{'a'}\"", "f'{(lambda: 1)()}'", "f'{a or b}'", "f'{a if b else c}'",
-                  "f'{(a, b)}'", "f'{a,}'", "f'{{{a}}}'", "f'{a:\\n}'", "f'{a:\\\\}'", "f'{a:>{b}\\x41}'", "rf'{a:\\n}'", "f'{a:é}'"]:
+                  "f'{(a, b)}'", "f'{a,}'", "f'{{{a}}}'", "f'{a:\\n}'", "f'{a:\\\\}'", "f'{a:>{b}\\x41}'", "rf'{a:\\n}'", "f'{a:é}'", "f'{a:{b=}}'", "f'{a!r:>{b=}0}'"]:
             yield {'src': s}
 
     def gen(self, cs, ctx):
@@ -206,6 +206,9 @@ class C11(ProgramProperty):
         if 'C11-F3' in ids and sig.startswith(('roundtrip_tree_differs', 'rendering_means_something_else_to_cpython')) and 'FormattedValue.format_spec' in d.get('path', '') \
                 and 'str.v' in d.get('path', '') and self.spec_has_escape(d.get('src', '')):
             return 'C11-F3'
+        if 'C11-F4' in ids and sig.startswith('roundtrip_tree_differs') and 'FormattedValue.format_spec' in d.get('path', '') and \
+                re.search(r':[^}]*\{[^}]*=\s*[!:}]', d.get('src', '')):
+            return 'C11-F4'
         if 'C11-F2' in ids and sig.endswith('Constant.kind') and 'JoinedStr' in d.get('path', ''):
             return 'C11-F2'
         return None
